@@ -278,12 +278,17 @@ func c02History(c *vc.Ctx, idx int) {
 			ch.Inject(raw)
 			logf("tx %d: %s", i, it.desc)
 		}
-		// membership changes now and then (the threshold and the key set change with them)
+		// membership changes (a voter, then the sitting proposer) now and then (the threshold and the key set change with them)
 		var reqs *world.Requests
 		if blk%9 == 4 && len(g.Voters) > 1 && removed < 2 && g.Voters[len(g.Voters)-1] != nil {
-			reqs = &world.Requests{Relayer: goattypes.RelayerRequests{Removes: []*goattypes.RemoveVoterRequest{{Voter: common.BytesToAddress(g.Voters[len(g.Voters)-1].Addr)}}}}
+			target := g.Voters[len(g.Voters)-1]
+			if removed == 1 {
+				target = g.Proposer // the sitting proposer leaves: at the next election its role passes on without an election
+				c.Count("removals_of_the_sitting_proposer", 1)
+			}
+			reqs = &world.Requests{Relayer: goattypes.RelayerRequests{Removes: []*goattypes.RemoveVoterRequest{{Voter: common.BytesToAddress(target.Addr)}}}}
 			removed++
-			logf("EL: remove voter %s", g.Voters[len(g.Voters)-1].AddrStr)
+			logf("EL: remove member %s", target.AddrStr)
 		}
 		b, err := ch.Step(world.StepOpts{Reqs: reqs})
 		if err != nil {
